@@ -54,11 +54,20 @@ func genC08(t *rapid.T) c08Scen {
 		}
 		ends := []string{"disc0", "close", "close", "malformed", "keepalive", "takeover_clean", "takeover_resume", "server_close", "terminate"}
 		if l.V == 5 {
-			ends = append(ends, "disc4", "disc4")
+			ends = append(ends, "disc4", "disc4", "disc4")
 		}
 		l.Ending = rapid.SampledFrom(ends).Draw(t, "ending")
-		if l.Ending == "disc4" && l.ExpiryS != 0 && rapid.Bool().Draw(t, "disc_expiry") {
+		if l.Ending == "disc4" && l.ExpiryS != 0 && rapid.IntRange(0, 2).Draw(t, "disc_expiry") != 0 {
 			l.DiscExpiryS = rapid.SampledFrom([]int{1, 3, 100}).Draw(t, "disc_expiry_s")
+			// aim at the interesting region: the new interval puts session end and will delay in the other order
+			if l.DelayS > 0 && rapid.Bool().Draw(t, "flip") {
+				switch {
+				case l.ExpiryS < l.DelayS:
+					l.DiscExpiryS = rapid.SampledFrom([]int{3, 100}).Draw(t, "longer")
+				case l.DelayS == 2:
+					l.DiscExpiryS = 1
+				}
+			}
 		}
 		switch l.Ending {
 		case "takeover_clean", "takeover_resume", "terminate":
